@@ -91,6 +91,13 @@ func Apply(doc, query, update bsonkit.Doc, upsert bool, arrayFilters bsonkit.Lis
 		pathTree: bsonkit.NewPathNode(),
 	}
 
+	// resolve positional operators against the original document as earlier
+	// operators may change the values the array filters are matched against
+	var original bsonkit.Doc
+	if hasPositionalOperator(*update) {
+		original = bsonkit.Clone(doc)
+	}
+
 	// update document according to update
 	err = Process(Context{
 		Value:                changes,
@@ -98,6 +105,7 @@ func Apply(doc, query, update bsonkit.Doc, upsert bool, arrayFilters bsonkit.Lis
 		MultiTopLevel:        true,
 		TopLevelArrayFilters: arrayFilters,
 		TopLevelQuery:        query,
+		TopLevelResolveDoc:   original,
 	}, doc, *update, "", true)
 	if err != nil {
 		return nil, err
@@ -108,6 +116,21 @@ func Apply(doc, query, update bsonkit.Doc, upsert bool, arrayFilters bsonkit.Lis
 	changes.pathTree = nil
 
 	return changes, nil
+}
+
+// hasPositionalOperator will return whether a path of the update includes a
+// positional operator.
+func hasPositionalOperator(update bson.D) bool {
+	for _, op := range update {
+		args, _ := op.Value.(bson.D)
+		for _, arg := range args {
+			if strings.Contains(arg.Key, "$") {
+				return true
+			}
+		}
+	}
+
+	return false
 }
 
 // checkConflicts will return an error if two paths of the update are equal or
